@@ -18,6 +18,12 @@ Two layers, both complete enumerations (depth-1 state spaces), both run against 
      quick: complete 2^21 for one kind + complete 2^18 (bits 3..20) for each other kind;
      thorough: complete 2^21 for all 9 decodable kinds x 3 payload sets.
 
+Boundary ids (both tiers): ids 0, -1, 2^31-1, -2^31 are ordinary ids ("present" = `is not None`).
+(i) every kind x every subset x every member in turn holding id 0 (the other boundary ids: lowest
+and highest member of every subset; thorough: every member), same oracle; (ii) each of the 13
+interpreted 4-byte fields holding each boundary id x all 2^15 subsets of the other interpreted bits
+(thorough: all kinds, plus id 0 x all 2^20 subsets of all other bits): it must read back as that id.
+
 VERIF_SEED only rotates which representative stands for a payload class and which kind gets the
 complete 2^21 sweep in the quick tier.
 """
@@ -214,7 +220,7 @@ def _same_value(got, want):
 
 
 def _pattern(got, want):
-    if want in BOUNDARY_IDS and want is not False and got != want:
+    if isinstance(want, int) and not isinstance(want, bool) and want in BOUNDARY_IDS and got != want:
         return ("lost" if got is None else "garbled") + f":id={want}"
     if want is not None and got is None:
         return "lost"
@@ -632,7 +638,7 @@ def work_ii(task):
     for name, c in zip(("ii:ok", "ii:payload-field-missing-rejected", "ii:payload-field-missing-fields-ok"), res_count):
         if c:
             part.outcome(name, c)
-    if zb == 9 and bv == 0 and lo == 0 and kind == "number":
+    if zb == 9 and bv == 0 and lo == 0 and mode == "zint":
         f = flags_of(mode, 0b101010101010101, nat, zb, others)
         part.sample({"layer": "ii", "case": ["ii", kind, f, k, r, zb, bv], "mode": mode, "boundary": "formula id 0", "example_record": ctx.record(f).hex()})
     if zb is None and lo == 0 and (mode == "sub" or k == r % 3):
@@ -675,7 +681,7 @@ def main():
         return run_replay(args, rp)
 
     run = Run(PID, "exploration", args)
-    run.max_samples = 20
+    run.max_samples = 32
     seed = args.seed
     thorough = args.tier == "thorough"
 
@@ -751,7 +757,7 @@ def main():
     run.floor(f"(i) every one of {n_payloads} (kind, payload) pairs x all 4096 attribute subsets executed", cnt["i_records_complete_subsets"] == n_payloads * NMASK and cnt["i_records_payload_sweep"] == 2 * n_sweep)
     run.floor("(i) all 9 kinds executed, each over >= 4096 subsets", all(cnt[f"i_records_{k}"] >= NMASK for k in KINDS_I) and len(KINDS_I) == 9)
     run.floor("(i) >= 90% of the records with at least one optional attribute are pairwise distinct byte strings",
-              len(digests) >= 0.9 * (n_payloads * (NMASK - 1) + n_sweep + n_boundary))
+              bool(run.failures) or len(digests) >= 0.9 * (n_payloads * (NMASK - 1) + n_sweep + n_boundary))  # a broken encoder may merge records: judged on clean runs only
     run.floor("(ii) every flag subset of the complete sweeps executed", cnt["ii_records_full"] == n_full << ref.NBITS and cnt["ii_records_sub"] == n_sub << (ref.NBITS - 3))
     run.floor("(i) boundary ids: every subset x every member (id 0) / lowest and highest member (other boundary ids) executed for all 9 kinds",
               cnt["i_records_boundary_id"] == n_boundary and n_boundary >= 9 * (len(OPT) << (len(OPT) - 1)))
